@@ -13,6 +13,7 @@ if [ "$1" = "-9" ]; then SRC=seed9; TAG=r9s; shift; fi
 if [ "$1" = "-10" ]; then SRC=seed10; TAG=r10s; shift; fi
 if [ "$1" = "-11" ]; then SRC=seed11; TAG=r11s; shift; fi
 if [ "$1" = "-12" ]; then SRC=seed12; TAG=r12s; shift; fi
+if [ "$1" = "-13" ]; then SRC=seed13; TAG=r13s; shift; fi
 for p in "$@"; do for i in 1 2 3 4; do
   [ -d /tmp/$SRC-$p-out/$i ] || continue
   rm -rf /tmp/seedsrc/$p/$TAG$i; mkdir -p /tmp/seedsrc/$p; cp -r /tmp/$SRC-$p-out/$i /tmp/seedsrc/$p/$TAG$i
